@@ -34,7 +34,7 @@ structure DrvState where
   dead : Bool
   classes : List ClassDef
   compound : List Nat := []   -- classes derived from `CompoundPalette` (they cannot be synced)
-  kept : List (Nat × Snap) := []   -- kept results of `get_palette()`: configuration index, accessors as built
+  kept : List (Nat × Snap) := []   -- `KWorld.kept`: kept results of `get_palette()` (the model's state, see `stepK`)
 
 def cpsOfChars (cs : List Char) : Option Str :=
   if cs = ['-'] then some [] else
@@ -128,11 +128,15 @@ where go : CfgItems → Bool
   | .cons _ (.str _) rest => go rest
   | .cons _ _ _ => false
 
-def doOp (st : DrvState) (w : MWorld) (op : MOp) : DrvState × String :=
-  match stepM st.classes w op with
-  | .ok (w', none) => ({ st with world := w' }, "ok")
-  | .ok (w', some s) => ({ st with world := w' }, showSnap s)
+/-- one operation of the model (`stepK`) on the state of the case -/
+def doK (st : DrvState) (w : MWorld) (op : KOp) : DrvState × String :=
+  match stepK st.classes ⟨w, st.kept⟩ op with
+  | .ok (k', ⟨none, _⟩) => ({ st with world := k'.m, kept := k'.kept }, "ok")
+  | .ok (k', ⟨some s, none⟩) => ({ st with world := k'.m, kept := k'.kept }, showSnap s)
+  | .ok (k', ⟨some s, some f⟩) => ({ st with world := k'.m, kept := k'.kept }, showSnap s ++ "|" ++ showCps f)
   | .error e => ({ st with dead := true }, "err " ++ e.name)
+
+def doOp (st : DrvState) (w : MWorld) (op : MOp) : DrvState × String := doK st w (.m op)
 
 def handle (st : DrvState) (line : String) : DrvState × String :=
   match splitWs line with
@@ -209,15 +213,13 @@ def handle (st : DrvState) (line : String) : DrvState × String :=
       | none => (st, "bad-op")
     | "gpal", [] =>
       match w.confs[st.cur]? with
-      | some c =>
-        let s := globalPaletteOf c
-        ({ st with kept := st.kept ++ [(st.cur, s)] }, showSnap s)
+      | some _ => doK st w (.gpal st.cur)
       | none => (st, "bad-op")
     | "gread", [h, id] =>
-      match h.toNat?.bind (st.kept[·]?), cpsOf id with
-      | some (i, s), some id =>
-        match keptItem w i id with
-        | some f => (st, showSnap s ++ "|" ++ showCps f)
+      match h.toNat?, cpsOf id with
+      | some n, some id =>
+        match st.kept[n]? with
+        | some (i, _) => if (w.confs[i]?).isSome then doK st w (.gread n id) else (st, "bad-op")
         | none => (st, "bad-op")
       | _, _ => (st, "bad-op")
     | "glob", [] =>
